@@ -70,6 +70,9 @@ type VerifStep struct {
 	CommentsBefore, CommentsAfter []VerifComment
 }
 
+// VerifNoPos is how token.NoPos is reported in offsets.
+const VerifNoPos = -1 << 40
+
 // VerifComment is one comment of the file.
 type VerifComment struct {
 	Offset int
@@ -120,11 +123,14 @@ func VerifRun(fset *token.FileSet, progs []*VerifProgram, filename string, src [
 		return tr
 	}
 	tf := fset.File(base.Pos())
+	// Positions are reported relative to the start of the target file
+	// (so positions inside the patch come out negative); VerifNoPos stands
+	// for token.NoPos.
 	off := func(p token.Pos) int {
 		if !p.IsValid() {
-			return -1
+			return VerifNoPos
 		}
-		return tf.Offset(p)
+		return int(p) - tf.Base()
 	}
 
 	snap := astdiff.Before(base, ast.NewCommentMap(fset, base, base.Comments))
